@@ -16,6 +16,10 @@ HasDot(t) == t \notin {"1", "2"}
 LitAgrees == (phase = "done" /\ kind = "lit") =>
    \A sp \in SpelledChars(unit, 1) : LET m == ParseFilesize(NumChars(number.txt) \o sp) IN
       IF unit = "" /\ HasDot(number.txt) THEN ~m.ok ELSE m.ok /\ m.v = ValueOf(unit, number)
+(* conformance scenarios: the literal scenarios of MC_C14 with the characters of the literal (Judge_SizeMech reads the size out of them) *)
+SpelledC == CHOOSE sp \in SpelledChars(unit, 1) : Str(sp) = spelled
+EmitC == (phase = "done" /\ kind = "lit" /\ ~(unit = "" /\ HasDot(number.txt))) =>
+            PrintT(<<"REPLAY", ToJson(LitScenario @@ [litc |-> NumChars(number.txt) \o SpelledC])>>)
 ASSUME ParseFilesize(<<"1"," ","K","i","B">>).v = FromInt(1024) /\ ~ParseFilesize(<<"k">>).ok /\ ~ParseFilesize(<<"1","x">>).ok
 ASSUME ParseFilesize(<<"1",".","0","0","5","k","b">>).v = FromInt(1005) /\ ParseFilesize(<<"7">>).v = FromInt(7) /\ ParseFilesize(<<"2",".","0","b">>).v = FromInt(2)
 =============================================================================
